@@ -31,6 +31,58 @@ impl LowRankMassMatrixStrategy {
             self.background_split,
         )
     }
+
+    /// Append one draw / gradient pair to the estimator window exactly as `update_estimators`
+    /// does for a good draw (no `Point` needed).
+    pub fn verif_push(&mut self, draw: Vec<f64>, grad: Vec<f64>) {
+        assert!(draw.len() == self.ndim && grad.len() == self.ndim);
+        self.draws.push_back(draw);
+        self.grads.push_back(grad);
+    }
+
+    /// What `update` would hand to `LowRankMassMatrix::update` for the current window:
+    /// `(stds, mean, vals, vecs (columns), mean_low_rank)`; `None` when `compute_update` gives up.
+    #[allow(clippy::type_complexity)]
+    pub fn verif_compute_update(
+        &self,
+    ) -> Option<(Vec<f64>, Vec<f64>, Vec<f64>, Vec<Vec<f64>>, Vec<f64>)> {
+        let ndraws = self.draws.len();
+        let mut draws: Mat<f64> = Mat::zeros(self.ndim, ndraws);
+        let mut grads: Mat<f64> = Mat::zeros(self.ndim, ndraws);
+        for (i, (draw, grad)) in self.draws.iter().zip(self.grads.iter()).enumerate() {
+            draws.col_as_slice_mut(i).copy_from_slice(&draw[..]);
+            grads.col_as_slice_mut(i).copy_from_slice(&grad[..]);
+        }
+        let (stds, mean, vals, vecs, mu) = self.compute_update(draws, grads)?;
+        Some((
+            stds.iter().copied().collect(),
+            mean.iter().copied().collect(),
+            vals.iter().copied().collect(),
+            vecs.col_iter().map(|c| c.iter().copied().collect()).collect(),
+            mu.iter().copied().collect(),
+        ))
+    }
+
+    /// `rescale_points` on a window given as columns: `(stds, mu, draw_mean, grad_mean, draws, grads)`
+    /// with the rescaled, centred columns.
+    #[allow(clippy::type_complexity)]
+    pub fn verif_rescale_points(
+        draws: &[Vec<f64>],
+        grads: &[Vec<f64>],
+    ) -> (Vec<f64>, Vec<f64>, Vec<f64>, Vec<f64>, Vec<Vec<f64>>, Vec<Vec<f64>>) {
+        let ndim = draws.first().map(|d| d.len()).unwrap_or(0);
+        let mut d: Mat<f64> = Mat::from_fn(ndim, draws.len(), |i, j| draws[j][i]);
+        let mut g: Mat<f64> = Mat::from_fn(ndim, grads.len(), |i, j| grads[j][i]);
+        let (stds, mu, dm, gm) = rescale_points(&mut d, &mut g);
+        (
+            stds.iter().copied().collect(),
+            mu.iter().copied().collect(),
+            dm.iter().copied().collect(),
+            gm.iter().copied().collect(),
+            d.col_iter().map(|c| c.iter().copied().collect()).collect(),
+            g.col_iter().map(|c| c.iter().copied().collect()).collect(),
+        )
+    }
 }
 
 impl LowRankMassMatrixStrategy {
